@@ -271,10 +271,10 @@ func raceBatchImpl(raceBin, work, tier string, seed uint64, workers int, verifDi
 		}
 	}
 	info := map[string]interface{}{
-		"race_build_runs":              total.Runs,
-		"race_build_trials":            total.Trials,
-		"race_reports_in_gofasta":      len(viols),
-		"race_reports_filtered_simrt":  total.Filtered,
+		"race_build_runs":             total.Runs,
+		"race_build_trials":           total.Trials,
+		"race_reports_in_gofasta":     len(viols),
+		"race_reports_filtered_simrt": total.Filtered,
 	}
 	if total.Filtered > 0 {
 		fmt.Printf("INCONCLUSIVE: %d race reports had an access inside the simulator itself\n", total.Filtered)
